@@ -1,7 +1,8 @@
 ------------------------------ MODULE Ind_Sma -------------------------------
 (***************************************************************************)
-(* Apalache layer (DESIGN.md 2.4): the Sma / Cumulative machine of          *)
-(* Machines.tla restated over integers with type annotations, and an        *)
+(* Apalache layer (DESIGN.md 2.4): the Cumulative (Step) and Sma (StepSma)  *)
+(* machines of Machines.tla restated over integers with type annotations,  *)
+(* and an                                                                  *)
 (* INDUCTIVE invariant.  `Init => IndInv' and `IndInv /\ Next => IndInv''  *)
 (* with \E x \in Int hold for EVERY integer input and EVERY stream length,  *)
 (* for the fixed window length N; the ghost w (the last K inputs) keeps the *)
@@ -44,7 +45,15 @@ Step(x) ==
     /\ w' = LastK(Append(w, x), K)
     /\ t' = IF t <= K THEN t + 1 ELSE t
 
-Next == \E x \in Int : Step(x)
+(* Sma since fix 6e04b1a: once a value leaves, the window is summed afresh *)
+StepSma(x) ==
+    /\ IF Len(q) >= N
+       THEN q' = Append(Tail(q), x) /\ sum' = Sum(Append(Tail(q), x))
+       ELSE q' = Append(q, x) /\ sum' = sum + x
+    /\ w' = LastK(Append(w, x), K)
+    /\ t' = IF t <= K THEN t + 1 ELSE t
+
+Next == \E x \in Int : Step(x) \/ StepSma(x)
 
 (* the machine state is a function of the ghost window: finite memory (C03) ... *)
 Coupled == /\ q = LastK(w, N)
